@@ -224,6 +224,16 @@ def _work(task):
     return acc
 
 
+
+def _disturb_task(_):
+    from ..explore import disturb
+
+    acc = Acc()
+    acc.count("disturbance_rounds", 7)
+    for core, detail in disturb.differential('layouts', disturb.layout_battery):
+        acc.violation(core, {"disturb": True}, detail)
+    return acc
+
 def run(tier, seed):
     N = BOUND[tier]
     tasks = []
@@ -233,6 +243,7 @@ def run(tier, seed):
     k = seed % len(tasks)
     tasks = tasks[k:] + tasks[:k]
     acc = merge_all(par.pmap(_work, tasks))
+    acc.merge(par.run_fresh(_disturb_task, None))  # differential: a fixed battery before / after unrelated calls
     cov = {
         "states": acc.n["shapes"],
         "transitions": acc.n["layout_calls"],
@@ -249,5 +260,8 @@ def run(tier, seed):
 
 
 def replay(case):
+    if isinstance(case, dict) and case.get("disturb"):
+        from ..explore import disturb
+        return disturb.differential('layouts', disturb.layout_battery)
     shape = S.parse(case["shape"])
     return [(f"{k}|{S.show(shape)}", d) for k, d in check_shape(shape, case.get("only"))]
